@@ -170,6 +170,15 @@ impl<'tcx> Extract<'tcx> {
                 v.push(("path", s(self.path(def.did()))));
                 v.push(("did", self.did(def.did())));
                 v.push(("args", self.gargs(args)));
+                if def.is_enum() {
+                    let names: Vec<J> = def.variants().iter().map(|x| s(x.name.to_string())).collect();
+                    v.push(("variants", J::Arr(names)));
+                    let discrs: Vec<J> = def
+                        .discriminants(self.tcx)
+                        .map(|(_, d)| J::Str(format!("{}", d.val)))
+                        .collect();
+                    v.push(("discrs", J::Arr(discrs)));
+                }
                 v.push((
                     "ak",
                     s(if def.is_enum() {
